@@ -9,7 +9,7 @@ OBLIGATIONS = [
   Ob('C13.opposite_2', H, 'h_opposite', tier='quick', unwind=8, defines={'NF': 2, 'NV': 4}, max_alloc=64,
      bound='every list of 2 triangles over vertex ids 0..3 (degenerate, mirrored, duplicated included)',
      covers='CornerTable::ComputeOppositeCorners'),
-  Ob('C13.break_2', H, 'h_break', tier='quick', unwind=7, mem_gb=20, timeout=900, globals_check=False, defines={'NF': 2, 'NV': 4}, max_alloc=64,
+  Ob('C13.break_2', H, 'h_break', tier='quick', unwind=7, mem_gb=20, timeout=900, defines={'NF': 2, 'NV': 4}, max_alloc=64,
      unwindset=[BR + '.0:3', BR + '.1:3', BR + '.2:3', BR + '.3:7', BR + '.4:3'],
      bound='ANY consistent table of 2 triangles over vertex ids 0..3 (inductive pre-state = post-condition of phase 1)',
      covers='CornerTable::BreakNonManifoldEdges'),
@@ -18,13 +18,19 @@ OBLIGATIONS = [
      covers='CornerTable::ComputeVertexCorners, num_vertices, VertexParent data'),
   Ob('C13.opposite_2v3', H, 'h_opposite', tier='quick', unwind=8, defines={'NF': 2, 'NV': 3}, max_alloc=64, timeout=900,
      bound='every list of 2 triangles over vertex ids 0..2', covers='CornerTable::ComputeOppositeCorners'),
-  Ob('C13.break_3', H, 'h_break', tier='thorough', unwind=10, backend='kissat', defines={'NF': 3, 'NV': 5}, max_alloc=64, mem_gb=20, globals_check=False,
+  Ob('C13.break_3', H, 'h_break', tier='thorough', unwind=10, backend='kissat', defines={'NF': 3, 'NV': 5}, max_alloc=64, mem_gb=20,
      unwindset=[BR + '.0:4', BR + '.1:4', BR + '.2:4', BR + '.3:10', BR + '.4:5'],
      bound='ANY consistent table of 3 triangles over vertex ids 0..4', covers='CornerTable::BreakNonManifoldEdges'),
   Ob('C13.vertex_corners_3', H, 'h_vertex_corners', tier='thorough', unwind=11, defines={'NF': 3, 'NV': 5}, max_alloc=64, stubs=NOGROW, mem_gb=20,
      bound='ANY consistent table of 3 triangles over vertex ids 0..4, any vertex count covering the ids',
      covers='CornerTable::ComputeVertexCorners, num_vertices, VertexParent data'),
-  Ob('C13.break_3c', H, 'h_break', tier='extended', unwind=10, backend='cadical', defines={'NF': 3, 'NV': 5}, max_alloc=64, mem_gb=20, globals_check=False,
+  Ob('C13.init_2', H, 'h_init', tier='thorough', unwind=8, defines={'NF': 2, 'NV': 4}, max_alloc=64, stubs=NOGROW, mem_gb=20,
+     unwindset=[BR + '.0:3', BR + '.1:3', BR + '.2:3', BR + '.3:7', BR + '.4:3'],
+     bound='the whole construction on every list of 2 triangles over vertex ids 0..3', covers='CornerTable::Init = ComputeOppositeCorners + BreakNonManifoldEdges + ComputeVertexCorners, VertexParent, LeftMostCorner'),
+  Ob('C13.break_4', H, 'h_break', tier='extended', unwind=13, backend='kissat', defines={'NF': 4, 'NV': 5}, max_alloc=64, mem_gb=30,
+     unwindset=[BR + '.0:5', BR + '.1:5', BR + '.2:5', BR + '.3:13', BR + '.4:5'],
+     bound='ANY consistent table of 4 triangles over vertex ids 0..4', covers='CornerTable::BreakNonManifoldEdges'),
+  Ob('C13.break_3c', H, 'h_break', tier='extended', unwind=10, backend='cadical', defines={'NF': 3, 'NV': 5}, max_alloc=64, mem_gb=20,
      unwindset=[BR + '.0:4', BR + '.1:4', BR + '.2:4', BR + '.3:10', BR + '.4:5'], bound='x', covers='x'),
 ]
 META = {}
